@@ -69,14 +69,15 @@ def is_compressed(cfg, op):
     return op[0] == "S" and op[1] < 8 and bool(op[2] or cfg["compress"])
 
 
-def poison_index(cfg, ops):
+def poison_index(cfg, ops, tags=None):
     """Index of the first shared-context compressed send issued after an override message advanced only the peer's
-    window (takeover, shared compressor already has history).  None if there is none."""
+    window (takeover, shared compressor already has history).  None if there is none.  `tags`: outcome of each
+    operation (refused ones never reached a compressor)."""
     if not cfg["compress"] or cfg["notakeover"]:
         return None
     used = poisoned = False
     for i, op in enumerate(ops):
-        if not is_compressed(cfg, op):
+        if not is_compressed(cfg, op) or (tags is not None and i < len(tags) and tags[i] == "R"):
             continue
         if op[2]:
             poisoned = poisoned or used
@@ -90,7 +91,7 @@ def poison_index(cfg, ops):
 def _sig_override_desync(case, params):
     if case.get("kind") != "roundtrip":
         return False
-    k = poison_index(case["cfg"], case["ops"])
+    k = poison_index(case["cfg"], case["ops"], case.get("tags"))
     fb = case.get("first_bad_op")
     return (k is not None and fb is not None and fb >= k and is_compressed(case["cfg"], case["ops"][fb])
             and not case["ops"][fb][2])
@@ -107,7 +108,7 @@ SIGNATURES = {"override_desync": _sig_override_desync, "override_unnegotiated": 
 
 
 def build_model():
-    return fw.ocaml_model("C11", ["Model/WsCodec.vo", "Model/WsSend.vo"])
+    return fw.ocaml_model("C11", ["Model/WsCodec.vo"])
 
 
 def run_model(exe, lines, timeout=1800):
@@ -122,6 +123,20 @@ def run_model(exe, lines, timeout=1800):
     if len(out) != len(lines):
         raise RuntimeError(f"model driver answered {len(out)} lines for {len(lines)} requests")
     return out
+
+
+def run_model_parallel(exe, lines, workers=4):
+    """Same answers as run_model; the request list is dealt round-robin to a few driver processes."""
+    from concurrent.futures import ThreadPoolExecutor
+    if len(lines) < 40:
+        return run_model(exe, lines)
+    parts = [lines[i::workers] for i in range(workers)]
+    with ThreadPoolExecutor(workers) as ex:
+        outs = list(ex.map(lambda p: run_model(exe, p) if p else [], parts))
+    res = [None] * len(lines)
+    for i, o in enumerate(outs):
+        res[i::workers] = o
+    return res
 
 
 # ------------------------------------------------------------------------------------------------
@@ -420,7 +435,7 @@ def judge(case, r):
     for i, op in enumerate(ops):
         if r["tags"][i] == "R" and op_wf(rc, op) and not (closing and op[0] == "S" and not (op[1] & 8)):
             return (f"the writer refused a well-formed message (operation {i}: {r['refusals'][:1]})",
-                    {"first_bad_op": i, "status": r["status"], "first_bad": None})
+                    {"first_bad_op": i, "status": r["status"], "first_bad": None, "tags": r["tags"]})
         if op[0] == "C":
             closing = True
     if not all(op_wf(rc, ops[i]) for i in acc):
@@ -438,7 +453,7 @@ def judge(case, r):
         return None if m is None else [x if not isinstance(x, str) or len(x) <= 40 else x[:40] + f"..({len(x) // 2}B)" for x in m]
     what = (f"round trip broken at accepted message {fb} (operation {fbo}): sent {short(exp[fb]) if fb < len(exp) else None}, "
             f"received {short(got[fb]) if fb < len(got) else None}; {len(got)}/{len(exp)} messages delivered, reader status {r['status']}")
-    return what, {"first_bad": fb, "first_bad_op": fbo, "status": r["status"]}
+    return what, {"first_bad": fb, "first_bad_op": fbo, "status": r["status"], "tags": r["tags"]}
 
 
 def shrink(loop, case, budget=120):
@@ -606,8 +621,9 @@ def mandatory_cases(rng):
                 opcode = OP_BINARY if (n + mask) % 2 else OP_TEXT
                 p = rand_text(rng, n) if opcode == OP_TEXT else rng.randbytes(n)
                 rb = rng.getrandbits(32)
-                ops = [["S", opcode, ov, rb, p.hex()], ["S", OP_PING, 0, rb ^ 0x5A5A5A5A, b"k".hex()],
-                       ["S", opcode, ov, rb, p.hex()]]
+                ops = [["S", opcode, ov, rb, p.hex()], ["S", OP_PING, 0, rb ^ 0x5A5A5A5A, b"k".hex()]]
+                if n < 1000:
+                    ops.append(["S", opcode, ov, rb, p.hex()])
                 cases.append({"cfg": cfg, "rc": {"max": 0, "decode_text": 1}, "ops": ops, "cuts": []})
     for n in (0, 1, 124, 125):
         for mask in (0, 1):
@@ -616,7 +632,7 @@ def mandatory_cases(rng):
                               "ops": [["S", opcode, 0, 0xDEADBEEF, rng.randbytes(n).hex()]], "cuts": []})
     # the peer's size limit: exact fit is refused by the reader (C12's finding), one below passes
     for n in (1, 10, 126, 300):
-        for d in (1, 2):
+        for d in (0, 1, 2):
             cases.append({"cfg": {"mask": 1, "compress": 0, "notakeover": 0}, "rc": {"max": n + d, "decode_text": 0},
                           "ops": [["S", OP_BINARY, 0, 7, rng.randbytes(n).hex()]], "cuts": []})
     # close, then what a closing writer still accepts
@@ -693,7 +709,6 @@ def check_case(ctx, loop, case, mline, suite):
     if v is not None:
         what, extra = v
         c = dict(case, kind="roundtrip", suite=suite, **extra)
-        known = not ctx.violation.__self__._would_report(c) if hasattr(ctx, "_would_report") else None
         if _matches_known(ctx, c):
             ctx.violation(c, what)
         else:
@@ -734,8 +749,9 @@ def suite_codec(ctx, exe, loop):
     rng = ctx.rng
     cases = []
     for c in mandatory_cases(rng):
-        cases.append(dict(c, backend="toy"))
         wire_len = sum(len(o[4 if o[0] == "S" else 3]) // 2 + 14 for o in c["ops"])
+        if wire_len < 2000:
+            cases.append(dict(c, backend="toy"))
         cases.append(dict(c, backend="toy", cuts=gen_cuts(rng, wire_len, "rand")))
     nrand = 1500 if ctx.quick else 40000
     for i in range(nrand):
@@ -756,8 +772,11 @@ def suite_codec(ctx, exe, loop):
                 cases.append({"cfg": {"mask": mask, "compress": 15, "notakeover": 0}, "rc": {"max": 0, "decode_text": 0},
                               "ops": [["S", OP_BINARY, 0, rng.getrandbits(32), p.hex()], ["S", OP_BINARY, 0, 5, p[: n // 2].hex()]],
                               "cuts": [1000, 7, 70000], "backend": "toy"})
+    import time
+    t1 = time.time()
     lines = [model_line(c) for c in cases]
-    model = run_model(exe, lines)
+    model = run_model_parallel(exe, lines)
+    ctx.notes.append(f"codec: model answered {len(lines)} cases in {time.time() - t1:.1f}s")
     for c, ml in zip(cases, model):
         if ml.startswith(("EXN", "BADREQ")):
             ctx.disagreement("codec:writer", _small(c), ml[:200], "model runner failed")
@@ -815,7 +834,7 @@ def suite_zlib(ctx, loop):
     for c in mandatory_cases(rng):
         if c["cfg"]["compress"]:
             cases.append(dict(c, backend="zlib", cfg=dict(c["cfg"], compress=rng.randrange(9, 16))))
-    nrand = 700 if ctx.quick else 20000
+    nrand = 1500 if ctx.quick else 30000
     for i in range(nrand):
         cfg = gen_cfg(rng, want_compress=rng.randrange(9, 16))
         rc = gen_rc(rng)
@@ -1044,15 +1063,9 @@ def shrink_history(case, budget=60):
     return cur
 
 
-def lts_line(case, r):
-    """Abstract trace for Model/WsSend.v: the frames in wire order as (rsv1, opcode) and whether every compressed
-    frame's payload is the image of a message under the codec in lock order — checked by the model on the toy run."""
-    return None
-
-
 def suite_concurrent(ctx, exe):
     rng = ctx.rng
-    n = 160 if ctx.quick else 4000
+    n = 500 if ctx.quick else 8000
     ran = 0
     for i in range(n):
         case = gen_history(rng, "zlib" if i % 3 else "toy")
@@ -1117,13 +1130,25 @@ def run(ctx):
         return
     loop = asyncio.new_event_loop()
     inline_executor(loop)
+    import time
+    t0 = time.time()
+
+    def lap(name):
+        nonlocal t0
+        ctx.notes.append(f"suite {name}: {time.time() - t0:.1f}s")
+        print(f"[C11] suite {name}: {time.time() - t0:.1f}s", flush=True)
+        t0 = time.time()
     try:
         run_corpus(ctx, exe, loop)
+        lap("corpus")
         suite_codec(ctx, exe, loop)
+        lap("codec")
         suite_zlib(ctx, loop)
+        lap("zlib")
     finally:
         loop.close()
     suite_concurrent(ctx, exe)
+    lap("concurrent")
 
 
 def replay(ctx, case):
